@@ -485,7 +485,8 @@ impl<'a> ArxmlParser<'a> {
                         let sub_element = self.parse_element(new_element, Cow::from(path.as_ref()), lexer)?;
                         stored_comment = None;
                         // if this sub element was a short name, then Autosar path handling is needed
-                        if name == ElementName::ShortName {
+                        // the SHORT-NAME only names the element if it is the first sub element (see ElementRaw::is_identifiable)
+                        if name == ElementName::ShortName && element.content.is_empty() {
                             short_name_found = true;
                             let sub_element_inner = sub_element.0.read();
                             if let Some(ElementContent::CharacterData(CharacterData::String(name_string))) =
